@@ -13,16 +13,18 @@ cvars == <<cid, cph, ok, vars>>
 ToSet(s) == {s[i] : i \in 1..Len(s)}
 Cont(pairs) == [n \in Names |-> IF \E i \in 1..Len(pairs) : pairs[i][1] = n
                                THEN LET b == pairs[CHOOSE i \in 1..Len(pairs) : pairs[i][1] = n][2]
-                                    IN IF b.k = "roles" THEN RolesB(ToSet(b.r)) ELSE Alias(b.n)
+                                    IN IF b.k = "roles" THEN RolesB(ToSet(b.r)) ELSE IF b.k = "any" THEN AnyRule ELSE Alias(b.n)
                                ELSE None]
-Obs(d) == [n \in Names |-> CASE n = "n" -> ToSet(d.n) [] n = "n2" -> ToSet(d.n2) [] n = "o" -> ToSet(d.o) [] n = "u" -> ToSet(d.u)]
+\* a name that allows every role of the harness' universe is written {"*"}
+Star(S, all) == IF S = ToSet(all) THEN {"*"} ELSE S
+ObsN(d, all) == [n \in Names |-> Star(CASE n = "n" -> ToSet(d.n) [] n = "n2" -> ToSet(d.n2) [] n = "o" -> ToSet(d.o) [] n = "u" -> ToSet(d.u), all)]
 Verdict(c) ==
   LET m == Cont(c.main)
       df == Cont(c.dfile)
       surv == IF c.tool \in {"upgrade", "generate"} THEN Survive(Vanished) ELSE Names
   IN /\ c.crashed = 0                                          \* the tools complete for every valid file
-     /\ Obs(c.before) = Dec(m, df)                             \* the operator's policy decides as the layering says
-     /\ Same(Obs(c.after), Obs(c.before), surv)                \* ... and so does the tool's output
+     /\ ObsN(c.before, c.roles) = Dec(m, df)                             \* the operator's policy decides as the layering says
+     /\ Same(ObsN(c.after, c.roles), ObsN(c.before, c.roles), surv)                \* ... and so does the tool's output
      /\ (c.tool = "redundant" => ToSet(c.reported) = Redundant(Fs(m, df), Dirs1))
 CInit == cid \in 1..Len(Cases) /\ cph = 0 /\ ok = TRUE /\ main = NoRules /\ dfile = NoRules /\ ph = 0 /\ fails = {}
 CNext == cph = 0 /\ cph' = 1 /\ ok' = Verdict(Cases[cid]) /\ UNCHANGED <<cid, vars>>
